@@ -288,4 +288,16 @@ func init() {
 		Old:    "\t\tglobalEnv.logf(LOGRULE, \"Typechecking process %s\\n\", processes[i].OutlineString())\n",
 		New:    "\t\tglobalEnv.logf(LOGRULE, \"Typechecking process %s (%s)\\n\", processes[i].OutlineString(), processes[i].Providers[0].Ident)\n",
 		Expect: "process.typecheckProcesses | index"})
+	addFixture(Fixture{Name: "context-derived-from-previous-run", Rule: "R-REINIT", File: "process/runtime.go",
+		Old:    "\tre.ctx, cancel = context.WithCancel(context.Background())\n\tre.heartbeat = make(chan struct{}, 1)",
+		New:    "\tparent := re.ctx\n\tif parent == nil {\n\t\tparent = context.Background()\n\t}\n\tre.ctx, cancel = context.WithCancel(parent)\n\tre.heartbeat = make(chan struct{}, 1)",
+		Expect: "reinit:ctx"})
+	addFixture(Fixture{Name: "file-read-through-limit", Rule: "R-WHOLE-INPUT", File: "parser/parser.go",
+		Old:    "\treturn ParseReader(file)",
+		New:    "\treturn ParseReader(io.LimitReader(file, 1<<16))",
+		Expect: "parser.ParseFile | whole-input"})
+	addFixture(Fixture{Name: "external-choice-infers-differently", Rule: "R-SIBLING-CHOICE", File: "types/modality.go",
+		Old:    "func (q *BranchCaseType) inferModality(labelledTypesEnv LabelledTypesEnv, usedLabels map[string]bool) Modality {\n\t_, unset := q.Mode.(*UnsetMode)\n\tif !unset {\n\t\t// If the type already has a modality, then return it\n\t\treturn q.Mode\n\t}\n\n\tvar commonModes []Modality\n\tfor _, branch := range q.Branches {\n\t\tusedLabelsCopy := copyMap(usedLabels)\n\t\tbranchMode := branch.SessionType.inferModality(labelledTypesEnv, usedLabelsCopy)\n\t\tcommonModes = append(commonModes, branchMode)\n",
+		New:    "func (q *BranchCaseType) inferModality(labelledTypesEnv LabelledTypesEnv, usedLabels map[string]bool) Modality {\n\t_, unset := q.Mode.(*UnsetMode)\n\tif !unset {\n\t\t// If the type already has a modality, then return it\n\t\treturn q.Mode\n\t}\n\n\tvar commonModes []Modality\n\tfor _, branch := range q.Branches {\n\t\tusedLabelsCopy := copyMap(usedLabels)\n\t\tbranchMode := branch.SessionType.inferModality(labelledTypesEnv, usedLabelsCopy)\n\t\tcommonModes = append(commonModes, branchMode)\n\t\tif _, u := branchMode.(*UnsetMode); u {\n\t\t\tbreak\n\t\t}\n",
+		Expect: "sibling:inferModality"})
 }
